@@ -32,11 +32,51 @@ def _root_name(node):
             return None
 
 
+_LOCAL_H5 = set()      # per function: names assigned from an h5 handle expression (flat = h5file[name][...])
+_ALIASES = {}          # per function: names assigned once from a name or a call on names (uid_str = as_str_if_uuid(uid))
+
+
 def _h5ish(node):
-    return _root_name(node) in H5_NAMES
+    r = _root_name(node)
+    return r in H5_NAMES or r in _LOCAL_H5
+
+
+def _prepare_function(fn):
+    """Collect local handle names and simple aliases so that renaming a local or naming a sub-expression leaves the rows alone."""
+    _LOCAL_H5.clear()
+    _ALIASES.clear()
+    counts = {}
+    assigns = []
+    for n in ast.walk(fn):
+        if isinstance(n, ast.Assign) and len(n.targets) == 1 and isinstance(n.targets[0], ast.Name):
+            counts[n.targets[0].id] = counts.get(n.targets[0].id, 0) + 1
+            assigns.append((n.lineno, n.targets[0].id, n.value))
+    for _, name, value in sorted(assigns, key=lambda t: t[0]):
+        if counts[name] != 1 or name in H5_NAMES:
+            continue
+        if isinstance(value, (ast.Subscript, ast.Call, ast.Attribute)) and _h5ish(value) and not (
+                isinstance(value, ast.Subscript) and _is_data_index(value.slice)):
+            _LOCAL_H5.add(name)
+        elif isinstance(value, ast.Name) or (isinstance(value, ast.Call) and all(isinstance(a, ast.Name) for a in value.args)
+                                             and not value.keywords and isinstance(value.func, ast.Name)):
+            _ALIASES[name] = value
+
+
+class _Subst(ast.NodeTransformer):
+    def visit_Name(self, node):
+        seen = set()
+        while isinstance(node, ast.Name) and node.id in _ALIASES and node.id not in seen:
+            seen.add(node.id)
+            node = _ALIASES[node.id]
+        if isinstance(node, ast.Call):
+            return ast.Call(func=node.func, args=[self.visit(a) for a in node.args], keywords=[])
+        return node
 
 
 def _norm_key(node):
+    import copy
+
+    node = _Subst().visit(copy.deepcopy(node))
     if isinstance(node, ast.Constant) and isinstance(node.value, str):
         return repr(node.value)
     txt = ast.unparse(node)
@@ -156,6 +196,7 @@ def reader_rows(repo: Path):
     found = set()
     for fn in _functions(tree, "H5Reader"):
         if fn.name.startswith("fetch_"):
+            _prepare_function(fn)
             v = _Sites(f"H5Reader.{fn.name}", "geoh5py/io/h5_reader.py")
             for s in fn.body:
                 v.visit(s)
@@ -165,6 +206,7 @@ def reader_rows(repo: Path):
     tree = ast.parse(src.read_text())
     for fn in _functions(tree, "Workspace"):
         if fn.name in WS_FUNCS:
+            _prepare_function(fn)
             v = _Sites(f"Workspace.{fn.name}", "geoh5py/workspace/workspace.py")
             for s in fn.body:
                 v.visit(s)
